@@ -517,6 +517,53 @@ def run_session6(case):
     return session.run_case(case, lambda: [coherent_monitor("session"), resample_law_monitor("session")], oracle=None, key_pred=lambda k: ":resample:" in k or k.startswith("session:copy"))
 
 
+def run_ladder6(case):
+    """Scale ladder: weight vectors of 7e4 .. 2e5 entries (beyond any block / chunk size a refactoring would pick), n up to 2e5.  The exact
+    rational partition is too expensive here; the oracle is the statement of the property itself evaluated in floating point with an explicit
+    slack: n indices, in range, non-decreasing, no zero-weight index, copies of i within [floor(n w_i - eps), ceil(n w_i + eps)], eps = 1e-6."""
+    res = Res()
+    m, n = case["m"], case["n"]
+    fams = {}
+    fams["uniform"] = np.full(m, 1.0 / m)
+    g = 0.9999 ** np.arange(m)
+    fams["geometric"] = g / g.sum()
+    w = np.full(m, 0.5 / m)
+    for b in (1 << 12, 1 << 14, 1 << 16, (1 << 16) + 1, 1 << 17):
+        if b < m:
+            w[b] += 0.1
+    fams["heavy-at-powers-of-two"] = w / w.sum()
+    z = np.where(np.arange(m) % 3 == 0, 0.0, 1.0)
+    z[(1 << 16) - 1: (1 << 16) + 2] = 0.0
+    fams["every-third-zero"] = z / z.sum()
+    for fam, wv in fams.items():
+        for u0 in (0.0, 0.37, 1.0 - 2.0 ** -53):
+            cc = dict(case, only=[fam, u0])
+            if case.get("only") and case["only"] != [fam, u0]:
+                continue
+            try:
+                out = np.asarray(_call_syst(n, wv.copy(), u0))
+            except Exception as e:
+                res.violate(f"ladder:raises:{type(e).__name__}", f"systematic_resample({n}, {fam} weights of length {m}) raised {e!r} at u0={u0!r}", cc)
+                continue
+            res.evals += 1
+            res.outcome(("ladder", m, n, fam, u0), nontrivial=True)
+            if out.shape != (n,) or out.min() < 0 or out.max() >= m:
+                res.violate("ladder:range", f"{fam} weights of length {m}, n={n}, u0={u0!r}: {out.shape} indices in [{out.min()}, {out.max()}]", cc)
+                continue
+            if np.any(np.diff(out) < 0):
+                res.violate("ladder:order", f"{fam} weights of length {m}, n={n}, u0={u0!r}: indices not non-decreasing", cc)
+            cnt = np.bincount(out, minlength=m)
+            if np.any(cnt[wv == 0.0] > 0):
+                res.violate("ladder:zero-weight-selected", f"{fam} weights of length {m}, n={n}, u0={u0!r}: index {int(np.flatnonzero((wv == 0) & (cnt > 0))[0])} has weight 0 but was selected", cc)
+            t = n * wv
+            bad = np.flatnonzero((cnt < np.floor(t - 1e-6)) | (cnt > np.ceil(t + 1e-6)))
+            if len(bad):
+                i = int(bad[0])
+                res.violate("ladder:count-law", f"{fam} weights of length {m}, n={n}, u0={u0!r}: index {i} has n*w = {t[i]!r} but {int(cnt[i])} copies ({len(bad)} indices off)", cc)
+    res.states += 1
+    return res
+
+
 def run_sforms(case):
     """systematic_resample with the SAME (dyadic, exactly representable) weights and size presented as other legal containers / dtypes / layouts /
     integer types, over the cell mid-points of the offset partition; plus the call-history oracle (a call repeated after other calls gives the
@@ -586,7 +633,7 @@ def run_cross6(case):
     return session.run_cross_resume(case, lambda: [coherent_monitor("pipe", resumed=True), resample_law_monitor("pipe")], key_pred=lambda k: ":resample:" in k or "raises" in k)
 
 
-KINDS = {"cross": run_cross6, "sforms": run_sforms, "duo": run_duo6, "rsyst_full": run_rsyst_full, "session": run_session6, "syst": run_syst, "mult": run_mult, "rsyst": run_rsyst, "post": run_post}
+KINDS = {"ladder": run_ladder6, "cross": run_cross6, "sforms": run_sforms, "duo": run_duo6, "rsyst_full": run_rsyst_full, "session": run_session6, "syst": run_syst, "mult": run_mult, "rsyst": run_rsyst, "post": run_post}
 
 
 # ---------------------------------------------------------------------------------------------
@@ -677,6 +724,7 @@ def plan(ctx):
     full += [{"kind": "rsyst_full", "n": 3, "ws": ws[i::12][:: (1 if th else 3)], "beta": b} for b in (2.0 ** -14, 1e-5, 9.9e-5, 5e-324, 1.0) for i in range(12)]
     ctx.explore("resampler-call-site-partition", full)
     dy = [c for mm in (1, 2, 3, 4) for c in compositions(8, mm) if sum(c)]
+    ctx.explore("scale-ladder", [{"kind": "ladder", "m": m_, "n": n_} for m_, n_ in ((70001, 1000), (200000, 1000), (131073, 200000)) + (((1000003, 5000),) if th else ())])
     ctx.explore("input-forms-and-call-history", [{"kind": "sforms", "n": nn, "comps": dy[i::8]} for nn in ((1, 2, 3, 5, 8) if th else (1, 3, 5)) for i in range(8)])
     from mc import session as _sess
     cfg = dict(n_particles=8, d=1, ess_ratio=1.0, n_total=10 ** 6, eval="scalar", clustering=False)
